@@ -244,19 +244,36 @@ class ClusterCore(Core):
         return True
 
 
+def memory_parser(core, document):
+    """the real supvisors Parser over an in-memory rules document (file reading and XSD validation stay outside)"""
+    import xml.etree.ElementTree as ET
+    import supvisors.sparser as SP
+    real_parse = SP.Parser.parse
+    SP.Parser.parse = lambda self, filename: ET.ElementTree(ET.fromstring(document))
+    try:
+        core.options.rules_files = ['rules.xml']
+        return SP.Parser(core)
+    finally:
+        SP.Parser.parse = real_parse
+
+
 class Cluster:
-    def __init__(self, n=2, config=None, programs=None):
-        """programs: {instance index: [(group, name), ...]}"""
+    def __init__(self, n=2, config=None, programs=None, rules=None):
+        """programs: {instance index: [(group, name), ...]}; rules: text of a rules file shared by all instances"""
         self.n = n
         self.config = config or {'synchro_options': 'LIST'}
         self.programs = programs or {}
+        self.rules = rules
         self.net = Net()
+        self.stalled = set()       # (sender identifier, peer identifier): that proxy thread is stuck (slow XML-RPC)
         self.cores = []
         for i in range(n):
             self.cores.append(self._build(i))
 
     def _build(self, i):
         c = ClusterCore(self.net, i, self.n, self.config, self.programs.get(i, ()))
+        if self.rules:
+            c.parser = memory_parser(c, self.rules)
         self.net.cores[c.ident] = c
         self.net.alive[c.ident] = True
         return c
@@ -273,6 +290,13 @@ class Cluster:
         self.net.drop_channels_of(old.ident)
         self.cores[i] = self._build(i)
 
+    def stall(self, i, j):
+        """the proxy thread of instance i towards instance j is stuck: what i publishes to j queues up"""
+        self.stalled.add((self.cores[i].ident, self.cores[j].ident))
+
+    def unstall(self, i, j):
+        self.stalled.discard((self.cores[i].ident, self.cores[j].ident))
+
     def partition(self, i, j):
         self.net.cut.add(frozenset((self.cores[i].ident, self.cores[j].ident)))
 
@@ -288,7 +312,7 @@ class Cluster:
         out = []
         for c in self.live():
             for pid, proxy in list(c.proxies().items()):
-                if proxy.inbox:
+                if proxy.inbox and (c.ident, pid) not in self.stalled:
                     out.append(('proxy', c, pid))
             if c.todo:
                 out.append(('supervisord', c, None))
